@@ -2,11 +2,12 @@
 # build.sh <scratch-dir> [race]: rewrite /repo's working tree into <scratch>, build the sim test binary there.
 set -e
 S=$1
+R=${VERIF_REPO:-/repo}   # the tree under test: /repo unless overridden for experiments on a scratch worktree
 export GOFLAGS=-mod=mod GOPROXY=off
 mkdir -p "$S"
-/verif/bin/rewrite -repo /repo -out "$S" >"$S/rewrite.log"
-sed "s#^replace github.com/apache/yunikorn-core => /repo#replace github.com/apache/yunikorn-core => /repo\nreplace github.com/looplab/fsm => $S/fsm#" /verif/sim/go.mod > "$S/go.mod"
-cp /repo/go.sum "$S/go.sum"
+/verif/bin/rewrite -repo "$R" -out "$S" >"$S/rewrite.log"
+sed "s#^replace github.com/apache/yunikorn-core => /repo#replace github.com/apache/yunikorn-core => $R\nreplace github.com/looplab/fsm => $S/fsm#" /verif/sim/go.mod > "$S/go.mod"
+cp "$R/go.sum" "$S/go.sum"
 [ -f /verif/sim/go.sum ] && cat /verif/sim/go.sum >> "$S/go.sum"
 RACE=""
 OUT="$S/sim.test"
